@@ -138,6 +138,13 @@ impl SubscriptionActor {
                 _ = deleted => (),
                 _ = poll => (),
             }
+
+            // The subscription is gone, but requests may still be on their way into the
+            // mailbox. A request that lands in a mailbox nobody reads any more is never
+            // answered (its sender may well be what keeps the mailbox alive), so close
+            // the mailbox and drop whatever still arrives: that answers `Closed`.
+            receiver.close();
+            while receiver.recv().await.is_some() {}
         });
 
         sender
